@@ -74,6 +74,47 @@ def step (toks : List String) : String :=
         | none => "bad-op"
       | none => "bad-op"
     | _, _, _ => "bad-op"
+  | "e2e" :: mode :: size :: skip :: nsort :: rest =>
+    match parseNat size, parseNat skip, parseNat nsort with
+    | some size, some skip, some nsort =>
+      match takeN nsort rest with
+      | some (specToks, rest) =>
+        match specToks.mapM parseSpec with
+        | some so =>
+          let afterRes : Option (Option Match × List String) :=
+            match rest with
+            | "-" :: rest' => some (none, rest')
+            | "A" :: sc :: rest' =>
+              match parseInt sc, takeN nsort rest' with
+              | some sc, some (ks, rest'') =>
+                match ks.mapM parseHexBytes with
+                | some ks => some (some ⟨0, sc, ks⟩, rest'')
+                | none => none
+              | _, _ => none
+            | _ => none
+          match afterRes with
+          | some (after, nm :: rest') =>
+            match parseNat nm with
+            | some nm =>
+              match parseMatches nsort nm rest' with
+              | some raws =>
+                let ids := raws.map (·.id)
+                let fmt (r : Result) : String :=
+                  let hs := r.hits.map (fun m => hexOfBytes (ids.getD (m.hit - 1) []))
+                  toString r.total ++ " " ++ (if hs.isEmpty then "-" else joinWith "," hs)
+                if mode == "b" then
+                  match after with
+                  | some b =>
+                    -- keys are computed under the reversed specification, as the real execution does
+                    fmt (searchBefore so size b (prepare (so.map SortSpec.reverse) raws))
+                  | none => "bad-op"
+                else fmt (collect so size (if after.isSome then 0 else skip) after (prepare so raws))
+              | none => "bad-op"
+            | none => "bad-op"
+          | _ => "bad-op"
+        | none => "bad-op"
+      | none => "bad-op"
+    | _, _, _ => "bad-op"
   | _ => "bad-op"
 
 end Bleve.Drv.C06
